@@ -402,6 +402,34 @@ pub fn run(run: &mut Run) {
     });
     let n = run.budget(200_000, 10_000_000);
     run.prop(&DecodeSide, wire32, n);
+    // 32-bit fields: every "round" wire value a special case might be keyed on (whole seconds up to 2 h, whole minutes up to a
+    // day, whole hours, the same in hundredths, powers of ten and two, the ends of the range), each with its two neighbours
+    let mut round: Vec<u64> = vec![];
+    for k in 0..=7200u64 {
+        round.push(k * 1000);
+        round.push(k * 100);
+    }
+    for k in 0..=1440u64 {
+        round.push(k * 60_000);
+        round.push(k * 6_000);
+    }
+    for k in 0..=1193u64 {
+        round.push(k * 3_600_000);
+        round.push(k * 360_000);
+    }
+    for e in 0..=9u32 {
+        round.push(10u64.pow(e));
+    }
+    for e in 0..=32u32 {
+        round.push(1u64 << e);
+    }
+    let mut with_neighbours: Vec<u64> = round.iter().flat_map(|v| [v.saturating_sub(1), *v, v + 1]).filter(|v| *v <= 0xffff_ffff).collect();
+    with_neighbours.sort();
+    with_neighbours.dedup();
+    let four: Vec<usize> = (0..DURATION_FIELDS.len()).filter(|i| DURATION_FIELDS[*i].2 == 4).collect();
+    let per = with_neighbours.len() as u64;
+    let total = per * four.len() as u64;
+    run.enumerate(&DecodeSide, total, false, |i| Some(WireCase::One { field: four[(i / per) as usize], compressed: i % 2 == 0, wire: with_neighbours[(i % per) as usize] }));
     // encode side
     let n = run.budget(300_000, 10_000_000);
     run.prop(&EncodeSide, duration_strategy(), n);
